@@ -60,6 +60,27 @@ Histories (added after seeded change r3m2 — a cached "already sorted" flag on 
 const_value (added after seeded change r4m2 — sort skipped inputs whose Value has a const_value): 20% of the
   generated nodes set Value.const_value on some outputs (node["const"]); model and oracle ignore it — a produced
   value with a constant annotation still has a producer.
+Deepening round (2026-09-26):
+  * Source translation.  translate_sort() reads Graph.sort with ast on every run, fail-closed: the plumbing
+    statements (flatten, the per-graph dict, add_predecessor's two guards and its append, the whole predecessor
+    collection loop incl. the `is None` / `is_ref()` guards and the GRAPH / GRAPHS branches, heapify / heappop /
+    heappush with the pushed key tuple, the per-graph append) must be textually what the model assumes, and the
+    loaded expressions are translated to Gallina (Gen/C12Gen.gen_src : sort_src): index key `-i`, depth initial
+    value, `+= 1`, `-= 1`, the two `== 0` tests, the counter, `num != len(nodes)`, the exception, the order
+    "cycle check / re-link", the reversal.  C12/GenModel.gsort runs these pieces with heapq as its contract (pop the
+    smallest key); C12_source_is_model (GenEquiv.v, via gsort_eq_model incl. min-of-(-i) = max-of-i and counter =
+    length) proves gsort gen_src = Model.sort_graph.  Function.sort, RecursiveGraphIterator._recursive_node_iter and
+    TopologicalSortPass.call are pinned textually.  Any other shape -> broken obligation translate:C12Gen (and the
+    search runs).  So the hand model is no longer tied by the correspondence alone.
+  * wf against the public API (probe_wf_breakers + a malformed stream): a node in two graphs is rejected, a node
+    twice in one graph is impossible, so the only public ways to break wf are (b) one Graph object under two
+    attributes — now a 6% stream of the generator (mode "shared", wf_b = false checked in Coq): model and
+    implementation agree (spurious ValueError whenever the shared graph has a node, nothing re-linked; ok when it
+    is empty), oracle restricted to what holds for every input; corpus 14 — and (c) a graph nested in itself:
+    RecursionError, nothing re-linked (no finite tree describes it; oracle-only probe).
+  * Graph.sort on a graph nested in a FUNCTION body (kind function with nested target; corpus 15).
+  Not done: a frame THEOREM for graphs outside the sorted scope (the model returns the orders of the scope only; the
+  out-of-scope graphs are checked unchanged by the oracle on every nested-target case).
 Modelled, not verified: heapq (contract only), DoublyLinkedSet internals (C11), node.graph bookkeeping
   and name authority (C01), dict/set iteration order (independent per-graph relinking).
 Finding, fixed in /repo by 86f4e6a (known_findings.d/C12.json, status "fixed"): a GRAPH/GRAPHS-typed
@@ -97,6 +118,265 @@ from harness import common
 from harness.common import REPO, clist
 
 SRC_CORE = os.path.join(REPO, "src", "onnx_ir", "_core.py")
+
+# =========================================================================== translation of the source
+# Fail-closed, statement by statement: the plumbing statements of Graph.sort must be textually (ast.unparse) what
+# the model assumes (PINS); the semantically loaded expressions are translated into Gallina (Gen/C12Gen.v, a
+# `sort_src` record for C12/GenModel.gsort) and C12/GenEquiv.v proves gsort gen_src = Model.sort_graph.  Any other
+# shape (an added statement, an extra guard, another key, a missing branch) raises Unsupported -> broken obligation.
+
+class Unsupported(Exception):
+    pass
+
+
+def _find_def(tree, cls: str | None, name: str):
+    import ast
+    body = tree.body
+    if cls is not None:
+        for c in body:
+            if isinstance(c, ast.ClassDef) and c.name == cls:
+                body = c.body
+                break
+        else:
+            raise Unsupported(f"class {cls} not found")
+    for f in body:
+        if isinstance(f, ast.FunctionDef) and f.name == name:
+            return f
+    raise Unsupported(f"{cls}.{name} not found")
+
+
+def _body(f):
+    import ast
+    b = list(f.body)
+    if b and isinstance(b[0], ast.Expr) and isinstance(b[0].value, ast.Constant) and isinstance(b[0].value.value, str):
+        b = b[1:]
+    return b
+
+
+def _zexpr(e, env: dict) -> str:
+    """Integer / boolean expression over the variables of env (keyed by ast.unparse text) -> Gallina (Z / bool)."""
+    import ast
+    txt = ast.unparse(e)
+    if txt in env:
+        return env[txt]
+    if isinstance(e, ast.Constant) and isinstance(e.value, int) and not isinstance(e.value, bool):
+        return common.cZ(e.value)
+    if isinstance(e, ast.UnaryOp) and isinstance(e.op, ast.USub):
+        return f"(- {_zexpr(e.operand, env)})%Z"
+    if isinstance(e, ast.BinOp):
+        ops = {ast.Add: "+", ast.Sub: "-", ast.Mult: "*"}
+        for k, v in ops.items():
+            if isinstance(e.op, k):
+                return f"({_zexpr(e.left, env)} {v} {_zexpr(e.right, env)})%Z"
+    if isinstance(e, ast.Compare) and len(e.ops) == 1:
+        a, b = _zexpr(e.left, env), _zexpr(e.comparators[0], env)
+        tbl = {ast.Eq: f"({a} =? {b})%Z", ast.NotEq: f"negb ({a} =? {b})%Z", ast.Lt: f"({a} <? {b})%Z",
+               ast.LtE: f"({a} <=? {b})%Z", ast.Gt: f"({b} <? {a})%Z", ast.GtE: f"({b} <=? {a})%Z"}
+        for k, v in tbl.items():
+            if isinstance(e.ops[0], k):
+                return v
+    raise Unsupported(f"expression outside the translatable subset: {txt}")
+
+
+def _aug(st, target: str, var: str) -> str:
+    """`target op= e` -> Gallina function body over var."""
+    import ast
+    if not (isinstance(st, ast.AugAssign) and ast.unparse(st.target) == target):
+        raise Unsupported(f"expected an augmented assignment to {target}, got: {ast.unparse(st)}")
+    ops = {ast.Add: "+", ast.Sub: "-", ast.Mult: "*"}
+    for k, v in ops.items():
+        if isinstance(st.op, k):
+            return f"({var} {v} {_zexpr(st.value, {})})%Z"
+    raise Unsupported(f"operator of {ast.unparse(st)}")
+
+
+def _pin(st, expected: str, what: str) -> None:
+    import ast
+    got = ast.unparse(st)
+    if got != expected:
+        raise Unsupported(f"{what}: statement changed\n   expected: {expected}\n   found:    {got}")
+
+
+PIN_BUILD_LOOP = """for node in nodes:
+    for input_value in node.inputs:
+        if input_value is None:
+            continue
+        predecessor_node = input_value.producer()
+        add_predecessor(node, predecessor_node)
+    for attr in node.attributes.values():
+        if not isinstance(attr, Attr) or attr.is_ref():
+            continue
+        if attr.type == _enums.AttributeType.GRAPH:
+            for predecessor_node in attr.value:
+                add_predecessor(node, predecessor_node)
+        elif attr.type == _enums.AttributeType.GRAPHS:
+            for attribute_graph in attr.value:
+                for predecessor_node in attribute_graph:
+                    add_predecessor(node, predecessor_node)"""
+
+PIN_ITER = """iterable = reversed(graph) if self._reverse else graph
+if self._enter_graph is not None:
+    self._enter_graph(graph)
+for node in iterable:
+    yield node
+    if self._recursive is not None and (not self._recursive(node)):
+        continue
+    yield from self._iterate_subgraphs(node)
+if self._exit_graph is not None:
+    self._exit_graph(graph)"""
+
+PIN_PASS = """original_nodes = list(ir.traversal.RecursiveGraphIterator(model.graph))
+model.graph.sort()
+sorted_nodes = list(ir.traversal.RecursiveGraphIterator(model.graph))
+for function in model.functions.values():
+    original_nodes.extend(ir.traversal.RecursiveGraphIterator(function))
+    function.sort()
+    sorted_nodes.extend(ir.traversal.RecursiveGraphIterator(function))
+modified = False
+for node, new_node in zip(original_nodes, sorted_nodes):
+    if node is not new_node:
+        modified = True
+        break
+return ir.passes.PassResult(model=model, modified=modified)"""
+
+
+def translate_sort() -> str:
+    """Gen/C12Gen.v from the current source; raises Unsupported when the source left the expected shape."""
+    import ast
+    with open(SRC_CORE, encoding="utf-8") as f:
+        tree = ast.parse(f.read())
+    b = _body(_find_def(tree, "Graph", "sort"))
+    if len(b) != 13:
+        raise Unsupported(f"Graph.sort has {len(b)} top-level statements, the model describes 13: "
+                          + " | ".join(ast.unparse(x).splitlines()[0] for x in b))
+    _pin(b[0], "nodes = list(onnx_ir.traversal.RecursiveGraphIterator(self))", "flatten")
+    _pin(b[1], "sorted_nodes_by_graph: dict[Graph, list[Node]] = {graph: [] for graph in "
+               "{node.graph for node in nodes if node.graph is not None}}", "per-graph lists")
+    st = b[2]
+    if not (isinstance(st, ast.AnnAssign) and ast.unparse(st.target) == "node_depth" and isinstance(st.value, ast.Call)
+            and ast.unparse(st.value.func) == "dict.fromkeys" and len(st.value.args) == 2
+            and ast.unparse(st.value.args[0]) == "nodes"):
+        raise Unsupported("node_depth initialisation: " + ast.unparse(st))
+    depth_init = _zexpr(st.value.args[1], {})
+    _pin(b[3], "node_predecessors: dict[Node, list[Node]] = {node: [] for node in nodes}", "predecessor lists")
+    st = b[4]
+    if not (isinstance(st, ast.AnnAssign) and ast.unparse(st.target) == "neg_node_index"
+            and isinstance(st.value, ast.DictComp) and ast.unparse(st.value.key) == "node"
+            and len(st.value.generators) == 1 and not st.value.generators[0].ifs
+            and ast.unparse(st.value.generators[0].target) == "(i, node)"
+            and ast.unparse(st.value.generators[0].iter) == "enumerate(nodes)"):
+        raise Unsupported("neg_node_index: " + ast.unparse(st))
+    key = _zexpr(st.value.value, {"i": "i"})
+    # add_predecessor
+    ap = b[5]
+    if not (isinstance(ap, ast.FunctionDef) and ap.name == "add_predecessor"
+            and [a.arg for a in ap.args.args] == ["child", "predecessor"]):
+        raise Unsupported("add_predecessor: " + ast.unparse(ap).splitlines()[0])
+    ab = _body(ap)
+    if len(ab) != 4:
+        raise Unsupported(f"add_predecessor has {len(ab)} statements, the model describes 4")
+    _pin(ab[0], "if predecessor is None:\n    return", "add_predecessor guard 1")
+    _pin(ab[1], "if predecessor not in node_depth:\n    return", "add_predecessor guard 2")
+    _pin(ab[2], "node_predecessors[child].append(predecessor)", "add_predecessor append")
+    depth_inc = _aug(ab[3], "node_depth[predecessor]", "d")
+    _pin(b[6], PIN_BUILD_LOOP, "step 1 (predecessor collection)")
+    st = b[7]
+    if not (isinstance(st, ast.AnnAssign) and ast.unparse(st.target) == "priority_queue"
+            and isinstance(st.value, ast.ListComp) and ast.unparse(st.value.elt) == "(neg_node_index[node], node)"
+            and len(st.value.generators) == 1 and ast.unparse(st.value.generators[0].target) == "node"
+            and ast.unparse(st.value.generators[0].iter) == "nodes" and len(st.value.generators[0].ifs) == 1):
+        raise Unsupported("initial priority queue: " + ast.unparse(st))
+    ready = _zexpr(st.value.generators[0].ifs[0], {"node_depth[node]": "d"})
+    _pin(b[8], "heapq.heapify(priority_queue)", "heapify")
+    st = b[9]
+    if not (isinstance(st, ast.Assign) and ast.unparse(st.targets[0]) == "num_of_sorted_nodes"):
+        raise Unsupported("counter initialisation: " + ast.unparse(st))
+    count_init = _zexpr(st.value, {})
+    w = b[10]
+    if not (isinstance(w, ast.While) and ast.unparse(w.test) == "priority_queue" and not w.orelse and len(w.body) == 5):
+        raise Unsupported("main loop: " + ast.unparse(w).splitlines()[0] + f" ({len(getattr(w, 'body', []))} statements)")
+    _pin(w.body[0], "_, current_node = heapq.heappop(priority_queue)", "heappop")
+    _pin(w.body[1], "assert current_node.graph is not None", "loop assert")
+    _pin(w.body[2], "sorted_nodes_by_graph[current_node.graph].append(current_node)", "append to the graph's list")
+    count_inc = _aug(w.body[3], "num_of_sorted_nodes", "c")
+    fl = w.body[4]
+    if not (isinstance(fl, ast.For) and ast.unparse(fl.target) == "predecessor_node"
+            and ast.unparse(fl.iter) == "node_predecessors[current_node]" and not fl.orelse and len(fl.body) == 2):
+        raise Unsupported("predecessor loop: " + ast.unparse(fl).splitlines()[0])
+    depth_dec = _aug(fl.body[0], "node_depth[predecessor_node]", "d")
+    iff = fl.body[1]
+    if not (isinstance(iff, ast.If) and not iff.orelse and len(iff.body) == 1):
+        raise Unsupported("push test: " + ast.unparse(iff))
+    push = _zexpr(iff.test, {"node_depth[predecessor_node]": "d"})
+    _pin(iff.body[0], "heapq.heappush(priority_queue, (neg_node_index[predecessor_node], predecessor_node))", "heappush")
+    # cycle check / relink, in either order
+    chk = [x for x in b[11:] if isinstance(x, ast.If)]
+    rel = [x for x in b[11:] if isinstance(x, ast.For)]
+    if len(chk) != 1 or len(rel) != 1:
+        raise Unsupported("expected one cycle check and one re-link loop after the main loop")
+    check_first = b[11] is chk[0]
+    c = chk[0]
+    if not (not c.orelse and len(c.body) == 1 and isinstance(c.body[0], ast.Raise) and isinstance(c.body[0].exc, ast.Call)
+            and isinstance(c.body[0].exc.func, ast.Name)):
+        raise Unsupported("cycle check: " + ast.unparse(c))
+    cycle = _zexpr(c.test, {"num_of_sorted_nodes": "c", "len(nodes)": "n"})
+    exn = c.body[0].exc.func.id
+    if exn not in common._EXN_NAMES:
+        exn = "OtherError"
+    r = rel[0]
+    rtxt = ast.unparse(r)
+    if rtxt == "for graph, sorted_nodes in sorted_nodes_by_graph.items():\n    graph.extend(reversed(sorted_nodes))":
+        reversed_ = True
+    elif rtxt == "for graph, sorted_nodes in sorted_nodes_by_graph.items():\n    graph.extend(sorted_nodes)":
+        reversed_ = False
+    else:
+        raise Unsupported("re-link loop: " + rtxt)
+    # pinned neighbours: Function.sort, the iterator, the pass
+    fs = _body(_find_def(tree, "Function", "sort"))
+    if len(fs) != 1:
+        raise Unsupported("Function.sort is no longer a single delegation")
+    _pin(fs[0], "self._graph.sort()", "Function.sort")
+    with open(os.path.join(REPO, "src", "onnx_ir", "traversal.py"), encoding="utf-8") as f:
+        ttree = ast.parse(f.read())
+    it = _body(_find_def(ttree, "RecursiveGraphIterator", "_recursive_node_iter"))
+    if "\n".join(ast.unparse(x) for x in it) != PIN_ITER:
+        raise Unsupported("RecursiveGraphIterator._recursive_node_iter changed:\n" + "\n".join(ast.unparse(x) for x in it))
+    with open(os.path.join(REPO, "src", "onnx_ir", "passes", "common", "topological_sort.py"), encoding="utf-8") as f:
+        ptree = ast.parse(f.read())
+    pc = _body(_find_def(ptree, "TopologicalSortPass", "call"))
+    if "\n".join(ast.unparse(x) for x in pc) != PIN_PASS:
+        raise Unsupported("TopologicalSortPass.call changed:\n" + "\n".join(ast.unparse(x) for x in pc))
+    b2 = "true" if check_first else "false"
+    b3 = "true" if reversed_ else "false"
+    return f"""(* GENERATED by harness/props/c12.py (translate_sort) from src/onnx_ir/_core.py Graph.sort — do not edit. *)
+From Coq Require Import ZArith List Bool.
+From IRV Require Import Base.Exn C12.GenModel.
+Definition gen_src : sort_src := {{|
+  s_key := fun i : Z => {key};
+  s_depth_init := {depth_init};
+  s_depth_inc := fun d : Z => {depth_inc};
+  s_ready := fun d : Z => {ready};
+  s_count_init := {count_init};
+  s_count_inc := fun c : Z => {count_inc};
+  s_depth_dec := fun d : Z => {depth_dec};
+  s_push := fun d : Z => {push};
+  s_cycle := fun c n : Z => {cycle};
+  s_exn := {exn};
+  s_check_before_relink := {b2};
+  s_relink_reversed := {b3}
+|}}.
+"""
+
+
+def generate(ck) -> bool:
+    try:
+        text = translate_sort()
+    except (Unsupported, SyntaxError, OSError) as e:
+        ck.gen_failed("C12Gen", e)
+        return False
+    ck.gen("C12Gen", text)
+    return True
+
 
 # =========================================================================== case format
 # case  = {"kind": "graph"|"function"|"pass", "units": [graph, ...], "target": gid | None,
@@ -249,12 +529,31 @@ def gen_case(rng, small: bool = False) -> dict:
     else:
         units = [gen_unit(rng, ids, gids, mode, size)]
         target = units[0]["gid"]
-        if kind == "graph" and rng.random() < 0.2:
+        if rng.random() < 0.2:        # Graph.sort on a nested graph, also inside a function body
             target = rng.choice([g["gid"] for g in walk_graphs(units[0])])
     case = {"kind": kind, "units": units, "target": target, "alloc": rng.randrange(4), "mode": mode}
+    if kind != "pass" and rng.random() < 0.06 and add_alias(rng, units[0]):
+        # malformed stream: one Graph object under two attributes — the only way the public API breaks `wf`
+        case["mode"], case["shared"], case["target"] = "shared", True, units[0]["gid"]
+        return case
     if rng.random() < 0.35:
         case["history"] = gen_history(rng, case)
     return case
+
+
+def add_alias(rng, unit: dict) -> bool:
+    """Put a copy of a nested graph's description (same gid, same node ids = the same Graph object, see
+    build.mk_graph) under a second attribute of a node outside that graph."""
+    subs = [g for g in walk_graphs(unit)][1:]
+    if not subs:
+        return False
+    g = rng.choice(subs)
+    inside = {n["id"] for n in walk_nodes(g)}
+    holders = [n for n in walk_nodes(unit) if n["id"] not in inside]
+    if not holders:
+        return False
+    rng.choice(holders)["attrs"].append(["g", _clone(g)])
+    return True
 
 
 # =========================================================================== implementation side
@@ -280,6 +579,8 @@ def build(case: dict):
             values[n["id"]][k].const_value = ir.tensor([float(n["id"])], name=f"v{n['id']}_{k}")
 
     def mk_graph(g: dict, depth: int):
+        if g["gid"] in graphs:
+            return graphs[g["gid"]]          # the same Graph object under a second attribute (malformed stream)
         nodes = []
         for n in g["nodes"]:
             attrs = []
@@ -359,7 +660,10 @@ def run_impl(case: dict) -> dict:
             elif case["kind"] == "function":
                 if "f" not in state:
                     state["f"] = ir.Function("d", "f", graph=roots[0], attributes=[])
-                state["f"].sort()
+                if case["target"] in (None, case["units"][0]["gid"]):
+                    state["f"].sort()
+                else:
+                    graphs[case["target"]].sort()        # a graph nested in the function body
             else:
                 from onnx_ir.passes.common.topological_sort import TopologicalSortPass
                 if "model" not in state:
@@ -473,7 +777,7 @@ def order_violations(g: dict, order: list[int]) -> list[str]:
 
 def scope_graphs(case: dict) -> list[list[dict]]:
     """Graphs each sort call is responsible for: one list per sorted unit."""
-    if case["kind"] == "graph":
+    if case["kind"] in ("graph", "function") and case["target"] is not None:
         return [list(walk_graphs(find_graph(case, case["target"])))]
     return [list(walk_graphs(u)) for u in case["units"]]
 
@@ -524,7 +828,23 @@ def has_valid_order(g: dict) -> bool:
     return seen == len(nodes)
 
 
+def oracle_shared(case: dict, obs: dict) -> list[str]:
+    """Outside the property's quantifier (a Graph object under two attributes): only what holds for every input —
+    ValueError is the only exception, nothing changes when it is raised, every graph keeps its nodes."""
+    bad = []
+    if obs["outcome"] not in ("ok", "raise:ValueError"):
+        bad.append(f"sort raised {obs['outcome']} (only ValueError is allowed)")
+    for k in obs["before"]:
+        if sorted(obs["before"][k]) != sorted(obs["after"][k]):
+            bad.append(f"graph {k}: nodes {obs['before'][k]} became {obs['after'][k]} (not a permutation)")
+        elif obs["outcome"] != "ok" and obs["before"][k] != obs["after"][k]:
+            bad.append(f"graph {k}: order changed although an exception was raised")
+    return bad
+
+
 def oracle(case: dict, obs: dict) -> list[str]:
+    if case.get("shared"):
+        return oracle_shared(case, obs)
     bad = []
     before, after = obs["before"], obs["after"]
     if not obs["owner_ok"]:
@@ -605,9 +925,10 @@ Fixpoint nodupb (l : list nat) : bool :=
 (* the hypothesis `wf` of the theorems, decided on every generated case *)
 Definition wf_b (g : graph) : bool :=
   nodupb (flat_of (entries g)) && nodupb (map fst (orders g)) && forallb (fun go => nodupb (snd go)) (orders g).
-Definition agree1 (c : graph * (res unit * list (nat * list nat))) : bool :=
-  let '(g, (r, o)) := c in let '(r', o') := sort_graph g in
-  wf_b g && res_eqb (fun _ _ => true) r' r && ord_eqb o' o.
+(* third component: whether the case is expected to satisfy wf (false only for the shared-subgraph stream) *)
+Definition agree1 (c : graph * (res unit * list (nat * list nat)) * bool) : bool :=
+  let '(g, (r, o), w) := c in let '(r', o') := sort_graph g in
+  Bool.eqb (wf_b g) w && res_eqb (fun _ _ => true) r' r && ord_eqb o' o.
 Definition agreeP (c : list graph * (res bool * list (list (nat * list nat)))) : bool :=
   let '(us, (r, o)) := c in let '(r', o') := sort_pass us in
   forallb wf_b us && res_eqb Bool.eqb r' r && list_eqb ord_eqb o' o.
@@ -628,9 +949,10 @@ def case_files(cases: list[tuple[dict, dict]], per_file: int = 250) -> list[tupl
                 passes.append((i, f"({us}, ({c_res(obs['outcome'], 'true' if obs['modified'] else 'false')}, {o}))"))
             else:
                 g = find_graph(case, case["target"])
-                ones.append((i, f"({c_graph(g)}, ({c_res(obs['outcome'], 'tt')}, {c_orders(g, obs['after'])}))"))
+                w = "false" if case.get("shared") else "true"
+                ones.append((i, f"({c_graph(g)}, ({c_res(obs['outcome'], 'tt')}, {c_orders(g, obs['after'])}), {w})"))
         text = CASE_HEADER
-        text += ("Definition ones : list (graph * (res unit * list (nat * list nat))) :=\n "
+        text += ("Definition ones : list (graph * (res unit * list (nat * list nat)) * bool) :=\n "
                  + clist("\n  " + t for _, t in ones) + ".\n")
         text += ("Definition passes : list (list graph * (res bool * list (list (nat * list nat)))) :=\n "
                  + clist("\n  " + t for _, t in passes) + ".\n")
@@ -886,13 +1208,51 @@ def features(ck, case: dict, obs: dict) -> None:
         ck.hist("features", "optional_none_input")
     if multi:
         ck.hist("features", "multi_output_producer")
-    if case["kind"] == "graph" and case["target"] != case["units"][0]["gid"]:
-        ck.hist("features", "sort_called_on_nested_graph")
+    if case["kind"] != "pass" and case["target"] != case["units"][0]["gid"]:
+        ck.hist("features", "sort_called_on_nested_graph" + ("_of_function_body" if case["kind"] == "function" else ""))
+    if case.get("shared"):
+        ck.hist("shared_subgraph_outcomes", obs["outcome"])
     moved = any(obs["before"][k] != obs["after"][k] for k in obs["before"])
     if moved:
         ck.hist("features", "order_changed")
     if obs["outcome"] != "ok" or (moved and depth >= 1) or captured_after:
         ck.nontriv(case)
+
+
+def probe_wf_breakers(ck) -> None:
+    """`wf` (no node / graph object twice in the scope) against the public API: which calls can break it.
+    (a) a node in two graphs / twice in one graph: rejected by Graph (ValueError) resp. impossible (linked set);
+    (b) one Graph object under two attributes: accepted -> the shared-subgraph stream of the correspondence;
+    (c) a graph nested in itself: accepted -> RecursionError from the iterator, nothing re-linked (no finite tree
+        describes it; oracle-only)."""
+    import onnx_ir as ir
+    m = ir.Node("", "A", [], name="m")
+    g1 = ir.Graph([], [], nodes=[m], name="g1")
+    try:
+        ir.Graph([], [], nodes=[m], name="g2")
+        ck.broken("wf-assumption:node-in-two-graphs", "Graph accepted a node that belongs to another graph")
+    except Exception as e:  # noqa: BLE001
+        ck.hist("wf_breakers", "node_in_two_graphs:rejected:" + common.exn_name(e))
+    g1.append(m)
+    ck.hist("wf_breakers", "node_twice_in_one_graph:" + ("kept_once" if [x.name for x in g1] == ["m"] else "DUPLICATED"))
+    if [x.name for x in g1] != ["m"]:
+        ck.broken("wf-assumption:node-twice-in-graph", "Graph.append of a present node duplicated it")
+    a, b = ir.Node("", "A", [], name="a"), ir.Node("", "B", [], name="b")
+    n = ir.Node("", "Loop", [], name="n")
+    g = ir.Graph([], [], nodes=[n, a, b], name="g")
+    n.attributes["body"] = ir.AttrGraph("body", g)
+    try:
+        g.sort()
+        out = "ok"
+    except RecursionError:
+        out = "RecursionError"
+    except Exception as e:  # noqa: BLE001
+        out = common.exn_name(e)
+    ck.hist("wf_breakers", "graph_nested_in_itself:" + out)
+    if [x.name for x in g] != ["n", "a", "b"]:
+        ck.violation({"kind": "oracle", "case": None, "failures": ["self-nested graph re-linked although sort raised"],
+                      "observed": [x.name for x in g]})
+    ck.count(3)
 
 
 def run(ck) -> None:
@@ -913,7 +1273,9 @@ def run(ck) -> None:
                        "two attributes is outside the property's quantifier); decided by wf_b on every generated case",
                        "stability additionally assumes well-scoped references (producer in the same or an enclosing "
                        "graph), as in the property's quantifier"]
+    generate(ck)
     ck.prove()
+    probe_wf_breakers(ck)
     n_cases = 600 if not ck.thorough else 12000
     cases: list[tuple[dict, dict]] = []
     failures: list[tuple[dict, list[str]]] = []
